@@ -46,6 +46,10 @@ class SimRec:
             self.faults["F3_same_worker_shares"] += st["same_worker_shares"]
             self.faults["F9_thread_preemptions"] += st["preemptions"]
             self.faults["F10_injected_task_failures"] += st["injected_task_failures"]
+            if st.get("injected_mid_task_failures"):
+                self.faults["F10_of_which_inside_a_running_task"] = \
+                    self.faults.get("F10_of_which_inside_a_running_task", 0) + \
+                    st["injected_mid_task_failures"]
             self.tasks += st["tasks"]
             self.gets += st["gets"]
             self.nontrivial += sim.choices.nontrivial
